@@ -26,7 +26,8 @@ def _replay_chunk(args):
     return calls, out
 
 
-def replay_cases(cases, modname, fname, rep, procs=16, artifacts=None):
+def replay_cases(cases, modname, fname, rep, procs=None, artifacts=None):
+    procs = procs or int(__import__('os').environ.get('VERIF_PROCS', '16'))
     n = max(1, min(procs, len(cases) // 20 + 1))
     chunks = [cases[i::n] for i in range(n)]
     calls = 0
